@@ -9,6 +9,8 @@
 (assert (forall ((n Str)) (! (not (shas emptyScp n)) :pattern ((shas emptyScp n)))))
 ; the zero Scope (Scope{}, EmptyScope) is the empty scope
 (assert (= (scp nilVal 0 false) emptyScp))
+; (the same fact without mentioning emptyScp, so that it accompanies queries that only speak of scp/shas)
+(assert (forall ((n Str)) (! (not (shas (scp nilVal 0 false) n)) :pattern ((shas (scp nilVal 0 false) n)))))
 ; supd(a,b): a.Update(b) (b wins)
 (declare-fun supd (Scp Scp) Scp)
 (assert (forall ((a Scp) (b Scp) (n Str)) (! (= (shas (supd a b) n) (or (shas a n) (shas b n))) :pattern ((shas (supd a b) n)))))
@@ -23,6 +25,10 @@
 (declare-fun bindok (Val Val Scp Val) Bool)
 (declare-fun bindsc (Val Val Scp Val) Scp)
 (declare-fun bindcx (Val Val Scp Val) Val)
+; binderr: Bind fails with a GENUINE error (evaluation failure inside the pattern, unsupported pattern) as
+; opposed to a plain mismatch. binderr implies not bindok.
+(declare-fun binderr (Val Val Scp Val) Bool)
+(assert (forall ((p Val) (c Val) (l Scp) (v Val)) (! (=> (binderr p c l v) (not (bindok p c l v))) :pattern ((binderr p c l v)))))
 
 ; sameq: identical or Equal (Equal alone is not reflexive: NaN)
 (define-fun sameq ((a Val) (b Val)) Bool (or (= a b) (eq a b)))
@@ -46,6 +52,16 @@
 (assert (forall ((p Val) (l Scp) (v Val) (r Scp) (r2 Scp) (u Str))
   (! (=> (and (matchedP p l v r u) (ext r2 r u)) (matchedP p l v r2 u))
      :pattern ((matchedP p l v r u) (ext r2 r u)))))
+; fbmatchedP(p, fb, l, r, u): the fallback expression fb evaluated (in SOME context c, under l) without error and
+; pattern p matched its value with bindings carried by r:  exists c. evalok fb c l /\ matchedP p l (evalv fb c l) r u.
+; Opaque like matchedP; intro + mono are the only facts used.
+(declare-fun fbmatchedP (Val Val Scp Scp Str) Bool)
+(assert (forall ((p Val) (fb Val) (c Val) (l Scp) (r Scp) (u Str))
+  (! (=> (and (evalok fb c l) (matchedP p l (evalv fb c l) r u)) (fbmatchedP p fb l r u))
+     :pattern ((evalok fb c l) (matchedP p l (evalv fb c l) r u)))))
+(assert (forall ((p Val) (fb Val) (l Scp) (r Scp) (r2 Scp) (u Str))
+  (! (=> (and (fbmatchedP p fb l r u) (ext r2 r u)) (fbmatchedP p fb l r2 u))
+     :pattern ((fbmatchedP p fb l r u) (ext r2 r u)))))
 ; evunder(x, e): expression x is e or a sub-expression evaluated in the course of evaluating e
 (declare-fun subexpr (Val Val) Bool)
 (define-fun evunder ((x Val) (e Val)) Bool (or (= x e) (subexpr x e)))
